@@ -477,6 +477,138 @@ def g7_schedule(prog, rep):
               function=f.name, construct="schedule")
 
 
+def g8_sse2_schedule(prog, rep):
+    """The SSE2 message schedule *is* SHA-256's, for every input: decided by exact symbolic evaluation (sa/simd.py).
+    (a) MSG4, given the vectors (W[j-16..j-13]), (W[j-12..j-9]), (W[j-8..j-5]), (W[j-4..j-1]), returns the vector whose lanes are
+        sigma1(W[t-2]) + W[t-7] + sigma0(W[t-15]) + W[t-16] for t = j..j+3 -- shuffles, shifts and XORs evaluated bit by bit over GF(2),
+        additions as canonical multisets of operands; the helper functions and macros it uses are evaluated in place;
+    (b) mm_bswap_epi32 reverses the bytes of each 32-bit lane (the block is big-endian);
+    (c) in the transform, walked with its loop counter known, every vector handed to MSG4 holds the four consecutive schedule
+        words the call expects, and every vector stored to W[k..k+3] holds words k..k+3."""
+    from .. import simd, finite
+    up = "alg/sha256_sse2.c"
+    if up not in prog.units:
+        return 0
+    u = prog.unit(up)
+    n = 0
+    f = u.func("MSG4")
+    if f is None or len(f.params) != 4:
+        raise cdb.AnalysisBroken("anchor missing: MSG4(X0, X1, X2, X3) in %s" % up)
+    ev = simd.Evaluator(u)
+    W = [simd.word(("w", i)) for i in range(16)]
+    for t in range(16, 20):
+        W.append(simd.schedule_word(W, t))
+    n += 1
+    try:
+        R = ev.run(f, [simd.vec_of_words([("w", 4 * k + i) for i in range(4)]) for k in range(4)])
+        got = simd.lanes32(R)
+        wrong = [k for k in range(4) if got[k] != W[16 + k]]
+        rep.check(not wrong, "G8-sse2", "MSG4 computes W[j..j+3] of the SHA-256 message schedule", f.loc,
+                  "lane%s %s differ%s from sigma1(W[t-2]) + W[t-7] + sigma0(W[t-15]) + W[t-16] (bit-exact symbolic evaluation of the function and the helpers it calls)"
+                  % ("s" if len(wrong) > 1 else "", wrong, "" if len(wrong) > 1 else "s"), function=f.name, construct="msg4")
+    except simd.CannotEvaluate as ex:
+        rep.bad("G8-sse2", "MSG4 computes W[j..j+3] of the SHA-256 message schedule", f.loc, "the function could not be evaluated exactly: %s" % ex,
+                function=f.name, construct="msg4")
+    g = u.func("mm_bswap_epi32")
+    if g is None:
+        raise cdb.AnalysisBroken("anchor missing: mm_bswap_epi32 in %s" % up)
+    n += 1
+    try:
+        R = ev.run(g, [simd.vec_of_words([("w", k) for k in range(4)])])
+        want = []
+        for k in range(4):
+            for b in range(4):
+                for j in range(8):
+                    want.append(frozenset([(("w", k), 8 * (3 - b) + j)]))
+        rep.check(R == want, "G8-sse2", "mm_bswap_epi32 reverses the bytes of each 32-bit lane", g.loc, "", function=g.name, construct="bswap")
+    except simd.CannotEvaluate as ex:
+        rep.bad("G8-sse2", "mm_bswap_epi32 reverses the bytes of each 32-bit lane", g.loc, "the function could not be evaluated exactly: %s" % ex, function=g.name, construct="bswap")
+    # (c) the flow of vectors through the transform
+    t = u.func("SHA256_Transform_sse2")
+    if t is None:
+        raise cdb.AnalysisBroken("anchor missing: SHA256_Transform_sse2")
+    pn = {p["name"]: ("v", p["name"], p["id"]) for p in t.params}
+    if "W" not in pn or "block" not in pn:
+        raise cdb.AnalysisBroken("SHA256_Transform_sse2 no longer has the parameters block and W")
+    tracked = {}
+    for e in t.all_elems():
+        if e.cls == "DeclStmt":
+            for d in e.decls or []:
+                ty = u.types.get(d.get("ty")) or {}
+                if isinstance(d, dict) and d.get("kind") == "local" and ty.get("kind") == "int":
+                    tracked[("v", d["name"], d["id"])] = (bool(ty.get("signed", True)), 8 * (ty.get("size") or 4))
+    ystate = {}
+    problems = []
+    counts = {"msg4": 0, "store": 0, "load": 0}
+
+    def vecref(tm, env):
+        """index k if tm is Y[k]"""
+        while tm[0] == "cast":
+            tm = tm[-1]
+        if tm[0] == "[]" and tm[1][0] == "v":
+            k = finite.ev(tm[2], env)
+            return (tm[1], k) if isinstance(k, int) else None
+        return None
+
+    def watch(e, env):
+        if e.is_assign and e.op == "=":
+            lhs = vecref(norm(e.kid(0)), env)
+            rhs = norm(e.kid(1))
+            if lhs is None or not (rhs[0] == "call"):
+                return
+            if rhs[1] == "MSG4" and len(rhs) == 6:
+                counts["msg4"] += 1
+                vals = []
+                for a in rhs[2:]:
+                    r = vecref(a, env)
+                    vals.append(ystate.get(r) if r is not None else None)
+                if any(v is None for v in vals):
+                    problems.append((e, "an argument of MSG4 is not a vector of known schedule words"))
+                    ystate[lhs] = None
+                    return
+                flat = [x for v in vals for x in v]
+                if flat != list(range(flat[0], flat[0] + 16)):
+                    problems.append((e, "MSG4 is given words %s, not sixteen consecutive schedule words" % (vals,)))
+                    ystate[lhs] = None
+                    return
+                ystate[lhs] = tuple(range(flat[0] + 16, flat[0] + 20))
+            elif rhs[1] == "mm_bswap_epi32" and len(rhs) == 3 and rhs[2][0] == "call" and rhs[2][1] == "_mm_loadu_si128":
+                a = rhs[2][2]
+                while a[0] == "cast":
+                    a = a[-1]
+                if a[0] == "&" and a[1][0] == "[]" and a[1][1] == pn["block"]:
+                    c = finite.ev(a[1][2], env)
+                    if isinstance(c, int) and c % 4 == 0:
+                        counts["load"] += 1
+                        ystate[lhs] = tuple(range(c // 4, c // 4 + 4))
+                        return
+                ystate[lhs] = None
+            else:
+                ystate[lhs] = None
+        elif e.cls == "CallExpr" and e.callee == "_mm_storeu_si128" and e.arg(0) is not None and e.arg(1) is not None:
+            a = norm(e.arg(0))
+            while a[0] == "cast":
+                a = a[-1]
+            if a[0] == "&" and a[1][0] == "[]" and a[1][1] == pn["W"]:
+                c = finite.ev(a[1][2], env)
+                r = vecref(norm(e.arg(1)), env)
+                counts["store"] += 1
+                have = ystate.get(r) if r is not None else None
+                if not isinstance(c, int) or have != tuple(range(c, c + 4)):
+                    problems.append((e, "W[%s..] receives a vector holding %s" % (c, "words %s" % (have,) if have else "something that is not four known schedule words")))
+    Wk = finite.Walker(t, tracked, lambda e: False, watch=watch, limit=200000)
+    try:
+        Wk.run(t.entry, 0, {k: None for k in tracked})
+    except finite.Budget:
+        raise cdb.AnalysisBroken("SHA256_Transform_sse2: the walk did not finish")
+    n += 1
+    ok = not problems and counts["load"] == 4 and counts["msg4"] == 12 and counts["store"] == 16
+    rep.check(ok, "G8-sse2", "the transform feeds MSG4 consecutive schedule words and stores each result where those words belong", (problems[0][0].where if problems else t.loc),
+              problems[0][1] if problems else "block loads: %d (4 expected), schedule steps: %d (12), stores to W: %d (16)" % (counts["load"], counts["msg4"], counts["store"]),
+              function=t.name, construct="flow")
+    return n
+
+
 def g6_cursor(prog, rep):
     """CRC32C_Update_SSE42 consumes its input strictly in order: every data operand of a crc32 instruction is read at the
     running cursor (buf[i + k]), and between two advances of the cursor the operands tile exactly the bytes the advance
@@ -571,6 +703,11 @@ def run(tier):
             g5(prog, rep)
             g6_cursor(prog, rep)
             g7_schedule(prog, rep)
+            g8_sse2_schedule(prog, rep)
+            # ... and its sixty-four rounds and round constants are FIPS 180-4's (C01's rules on the sibling's own copy of them)
+            if "alg/sha256_sse2.c" in prog.units:
+                from . import c01 as _c01
+                _c01.sha256(prog, rep, unit="alg/sha256_sse2.c", fname="SHA256_Transform_sse2", full=False)
             # the portable CRC code is the other half of every SSE4.2 result (heads, tails, short updates): its table
             # generator and step structure (C01's K5) are part of "the same function"
             from . import c01
